@@ -4,3 +4,7 @@ pub mod util;
 pub mod c07;
 pub mod mock;
 pub mod c01;
+pub mod targets;
+pub mod stats;
+pub mod c06;
+pub mod c03;
